@@ -143,7 +143,7 @@ def _run_case(ctx, case):
                 rw = repr(ex)
             if rw != want_w:
                 m2 = "C10:zero-width-only-run" if any(
-                    ch.s and all(cols.w(c) == 0 for c in ch.s) for ch in r.chunks) else "C10:slice-width"
+                    ch.s and all(cols.w(c) == 0 for c in ch.s) for ch in getattr(r, "chunks", [])) else "C10:slice-width"
                 ctx.judge(False, case, mech=m2, expected=want_w, got=rw)
     else:
         raise ValueError(op)
